@@ -756,12 +756,31 @@ impl RLN {
         let mut serialized_witness: Vec<u8> = Vec::new();
         input_data.read_to_end(&mut serialized_witness)?;
         let (rln_witness, _) = deserialize_witness(&serialized_witness)?;
+        let proof_values = proof_values_from_witness(&rln_witness)?;
 
         let proof = generate_proof(&self.proving_key, &rln_witness, &self.graph_data)?;
+        self.check_generated_proof(&proof, &proof_values)?;
 
         // Note: we export a serialization of ark-groth16::Proof not semaphore::Proof
         proof.serialize_compressed(&mut output_data)?;
 
+        Ok(())
+    }
+
+    /// The witness calculator does not evaluate the circuit's constraints, so a request the circuit
+    /// cannot satisfy (e.g. a message id outside its bit range) still yields a "proof".
+    /// We never hand out a proof that does not verify against its own public values.
+    #[cfg(not(target_arch = "wasm32"))]
+    fn check_generated_proof(
+        &self,
+        proof: &ArkProof<Curve>,
+        proof_values: &RLNProofValues,
+    ) -> Result<()> {
+        if !verify_proof(&self.verification_key, proof, proof_values)? {
+            return Err(Report::msg(
+                "the request cannot be satisfied by the circuit: generated proof does not verify",
+            ));
+        }
         Ok(())
     }
 
@@ -888,6 +907,7 @@ impl RLN {
         let proof_values = proof_values_from_witness(&rln_witness)?;
 
         let proof = generate_proof(&self.proving_key, &rln_witness, &self.graph_data)?;
+        self.check_generated_proof(&proof, &proof_values)?;
 
         // Note: we export a serialization of ark-groth16::Proof not semaphore::Proof
         // This proof is compressed, i.e. 128 bytes long
@@ -912,6 +932,7 @@ impl RLN {
         let proof_values = proof_values_from_witness(&rln_witness)?;
 
         let proof = generate_proof(&self.proving_key, &rln_witness, &self.graph_data)?;
+        self.check_generated_proof(&proof, &proof_values)?;
 
         // Note: we export a serialization of ark-groth16::Proof not semaphore::Proof
         // This proof is compressed, i.e. 128 bytes long
